@@ -45,14 +45,15 @@ func init() {
 		Rule: "random histories over a BaseExtEntity store with the system-entity constraint: create/update/patch/delete x {ordinary, system} context (contexts mixed inside one transaction via GetSystemContext / NewSystemMutateContext) x " +
 			"{ordinary, system} entity, with update payloads that try to flip the flag in both directions (with and without the Migrate marker) and field checkers that include or skip written fields; " +
 			"the same operations through a child store of that store (incl. a child-store create over an existing parent-only system entity from an ordinary context), and tolerant callers that ignore the error of a refused update / delete, carry on in the same transaction and commit; " +
+			"part (b): all 32 combinations of (widget flag, flags of two gadgets that reference it through a cascade-delete fk, context, DeleteById / DeleteWhere): from an ordinary context the delete may only succeed when no system entity is in its cascade closure, refused deletes change nothing; " +
 			"model predicts accept/reject; after every transaction every entity is read back (flag, name, tags) and compared, refused transactions must leave the whole-file dump unchanged; " +
 			"non-trivial = distinct (op, context kind, stored flag, payload flag, migrate, checker shape, outcome, position in transaction) tuples",
 		Assumptions: []string{"createdAt/updatedAt timestamps are not compared"},
 		Plan: func(tier core.Tier, seed int64) int {
 			if tier == core.Thorough {
-				return 200000
+				return 200000 + c16CascadeCases*4
 			}
-			return 480
+			return 480 + c16CascadeCases
 		},
 		Run: runC16,
 		Promises: func(core.Tier) map[string][]string {
@@ -70,12 +71,21 @@ func init() {
 			}
 			return map[string][]string{"combo": want, "flip": {"to-system:plainctx", "to-system:sysctx", "to-ordinary:sysctx", "to-system-migrate:plainctx", "to-system-migrate:sysctx", "child-create-over-system-parent:plainctx"},
 				"system_context_via": {"GetSystemContext", "NewSystemMutateContext", "GetSystemContext twice", "NewSystemMutateContext over a system context", "ordinary after UpdateContext"},
+				"cascade":            {"any-system=true:ordinary:DeleteById", "any-system=true:ordinary:DeleteWhere", "any-system=true:system:DeleteById", "any-system=false:ordinary:DeleteById", "any-system=false:ordinary:DeleteWhere"},
 				"tolerant":           {"update:plainctx:sysent", "patch:plainctx:sysent", "delete:plainctx:sysent"}}
 		},
 	})
 }
 
 func runC16(c *core.Ctx, idx int) {
+	nHist := 480
+	if c.Tier == core.Thorough {
+		nHist = 200000
+	}
+	if idx >= nHist {
+		c16Cascade(c, (idx-nHist)%c16CascadeCases)
+		return
+	}
 	r := c.Rand()
 	def := &schema.StoreDef{Type: "widgets", BasePath: []string{"stores"}, Ext: true, System: true,
 		Fields: []schema.Field{{Name: "name", Kind: schema.KStr}}}
